@@ -165,6 +165,35 @@ func cells() []cell {
 			}
 		}})
 	}
+	// another process has rotated the partition's key (the cached latest key was revoked, a newer one exists): the
+	// stale "latest" entry is refreshed to the newer key by an encrypt while a decrypt still needs the old key, which
+	// stays cached under its own id
+	for _, pol := range []string{"", "lru"} {
+		cfgRot := sharedCfg(pol, 4)
+		cfgRot.Revoke = time.Minute
+		out = append(out, cell{name: fmt.Sprintf("shared-%s/latest-rotated-by-another-process", map[string]string{"": "simple", "lru": "lru4"}[pol]), cfg: cfgRot, parts: []string{"P1", "P2"}, workers: func(e *cenv) []*worker {
+			dr := e.recs["P1"].drr
+			if !e.w.Revoke(dr.Key.ParentKeyMeta.ID, dr.Key.ParentKeyMeta.Created, time.Now()) {
+				panic("revoke failed")
+			}
+			time.Sleep(3 * time.Minute) // a later stamp is creatable and every cached entry is stale
+			pf := e.w.Factory(world.Default(time.Hour, 30*time.Minute, time.Minute), "svc", "prod")
+			ps, _ := pf.GetSession("P1")
+			if _, err := ps.Encrypt(context.Background(), []byte("rotates")); err != nil {
+				panic(err)
+			}
+			ps.Close()
+			pf.Close()
+			return []*worker{
+				{label: "g1", prog: func(w *worker) { w.dec(e.sess["P1"], e.recs["P1"]) }},
+				{label: "g2", prog: func(w *worker) {
+					w.enc(e.sess["P1b"], "P1")
+					w.ungated = true
+					w.dec(e.sess["P1b"], e.recs["P1"])
+				}},
+			}
+		}})
+	}
 	// the latest key is flagged revoked inside the creation-date precision unit in which it was created (no later stamp
 	// can be created yet, so the reload comes back with a new object for the same key id) while another goroutine
 	// of the same cache holds the old object: default "simple" shared cache and bounded ones
